@@ -706,12 +706,20 @@ func ruleBounds(c *Ctx, pf *parserFacts) {
 		phi, isPhi := throughCtor(c.P, fs.Val).(*ssa.Phi) // also a search extracted into a helper with a single return
 		okEdges := isPhi
 		if isPhi {
-			for _, e := range phi.Edges {
+			for ei, e := range phi.Edges {
 				if k, isK := e.(*ssa.Const); isK {
 					if k.Int64() != -1 {
 						okEdges = false
 					}
 					continue
+				}
+				// a counter running down from len-1 that leaves the loop by `break`: where the edge starts the loop condition
+				// `i >= 0` holds (and the counter only ever decreases from the last index)
+				if cnt, isCnt := e.(*ssa.Phi); isCnt && ei < len(phi.Block().Preds) && descendingFromLast(cnt) {
+					pv := pf.view(phi.Block().Preds[ei].Parent())
+					if eb := pv.BoundsAt(phi.Block().Preds[ei], pv.Term(e).String(), bound{}); eb.hasLo && eb.lo >= 0 {
+						continue
+					}
 				}
 				if e == ssa.Value(phi) {
 					continue // loop-carried value of the search variable itself
@@ -750,6 +758,32 @@ func ruleBounds(c *Ctx, pf *parserFacts) {
 			c.Bad("R10.2", key, pos, fmt.Sprintf("default mapping index %s is stored without rejecting the not-found case (edges ok=%v, bounds %s excl %v)", t, okEdges, b, b.excluded))
 		}
 	}
+}
+
+// descendingFromLast: a loop counter that starts at len(x)-1 and is only ever decremented.
+func descendingFromLast(cnt *ssa.Phi) bool {
+	start := false
+	for _, e := range cnt.Edges {
+		bo, ok := e.(*ssa.BinOp)
+		if !ok || bo.Op != token.SUB {
+			return false
+		}
+		k, isK := bo.Y.(*ssa.Const)
+		if !isK || k.Value == nil || k.Int64() != 1 {
+			return false
+		}
+		if bo.X == ssa.Value(cnt) {
+			continue
+		}
+		if call, isCall := bo.X.(*ssa.Call); isCall {
+			if bi, isB := call.Call.Value.(*ssa.Builtin); isB && bi.Name() == "len" {
+				start = true
+				continue
+			}
+		}
+		return false
+	}
+	return start
 }
 
 // ruleVocabularies: R10.3 closed vocabularies.
